@@ -263,7 +263,11 @@ var grpcSubgraphs = []string{"'id'", "'grpc-subgraph'"}
 // executed at all, the datasource does not fail while every RPC succeeded, and the response
 // has the shape of the selection.
 func runOne(g *rig, w *world, p *parsedOp, stable func(string) bool, side string) (*outcome, *failure) {
-	res := g.exec(p.text)
+	return evaluate(w, p, g.execVars(p.text, p.vars), stable, side)
+}
+
+// evaluate applies the single-operation oracles to an execution result.
+func evaluate(w *world, p *parsedOp, res execResult, stable func(string) bool, side string) (*outcome, *failure) {
 	out := &outcome{res: res}
 	if res.Err != "" {
 		return out, &failure{kind: "not-executed", side: side, msg: fmt.Sprintf("valid operation is not executed: %s\n %s = %s", clip(res.Err), side, p.text)}
